@@ -40,7 +40,8 @@ from . import c04_r6
 
 LEVEL = "proof"
 EXTRA_PROPS = ["QuantemModel.Props.C04Ext",   # growth 6: half-set masks (split + bf context + recombination, end to end)
-               "QuantemModel.Props.C04Dft"]   # growth 6: the two DFT identities for the list DFT; parallax limits, whole reconstruction
+               "QuantemModel.Props.C04Dft",   # growth 6: the two DFT identities for the list DFT; parallax limits, whole reconstruction
+               "QuantemModel.Props.C04Ext2"]  # growth 6: recombination (incl. half-sets) for the whole model, no FFT hypothesis
 MANIFEST_ENTRY = {
     "category": "proof",
     "text": "Lean 4 theorems over an executable model of DirectPtychography.reconstruct: the streaming skeleton "
